@@ -261,6 +261,11 @@ def getData (s : Storage) (k : Nat) : Res SVal :=
   | .absent => .found (s.trie.get k)
   | .panic => .panic
 
+/-- `ContractState.HasKey` = `bufferedStorage.has(key, lookupTrie = true)`: the key has a buffered entry
+(of any kind - a delete marker counts) or the storage trie holds a value for it. (No caller in the
+pinned tree; tied by the correspondence run.) -/
+def hasKey (s : Storage) (k : Nat) : Bool := s.buf.has k || (s.trie.get k).isSome
+
 /-- `ContractState.SetData`. -/
 def setData (s : Storage) (k v : Nat) : Storage := { s with buf := s.buf.put k (some v) }
 
@@ -300,10 +305,14 @@ def cacheRollback (snap : AMap Nat) : AMap Storage → Option (AMap Storage)
 
 /-! ### StateDB, BlockState -/
 
-/-- The part of `types.State` this layer reads or writes. -/
+/-- The part of `types.State` this layer reads or writes: `sroot` is written by `updateStorage`,
+the other fields only by callers (`AccountState.SetNonce/AddBalance/SubBalance`, `ContractState.SetCode`
+through the shared `*types.State`); `code` stands for `CodeHash` (0 = none). -/
 structure AVal where
   nonce : Nat
   sroot : AMap Nat
+  bal : Nat := 0
+  code : Nat := 0
 deriving Repr, DecidableEq
 
 /-- `StateDB`. `trie` is the content of the account trie. -/
@@ -372,7 +381,7 @@ def updateStorageLoop : List (Nat × Storage) → SDB → AMap Storage → Optio
         | .found ov =>
           let v : AVal := match ov with
             | some v => { v with sroot := st'.trie }
-            | none => ⟨0, st'.trie⟩
+            | none => { nonce := 0, sroot := st'.trie }
           updateStorageLoop t (s.putState c v) (done ++ [(c, st')])
         | _ => none
       else updateStorageLoop t s (done ++ [(c, st')])
